@@ -778,6 +778,16 @@ func (c *Ctx) freshPerEvaluation(v ssa.Value, use ssa.Instruction) (bool, string
 			return fresh(x.X, depth+1, local)
 		case *ssa.MakeInterface:
 			return fresh(x.X, depth+1, local)
+		case *ssa.MakeChan, *ssa.MakeMap, *ssa.MakeSlice:
+			if local && !inEveryLoopOfUse(x.(ssa.Instruction).Block()) {
+				return false, fmt.Sprintf("the object is made at %s, outside a loop that executes the use several times: every iteration works on the same object", c.P.RelPos(x.Pos()))
+			}
+			return true, ""
+		}
+		if u, isU := v.(*ssa.UnOp); isU {
+			if _, f, isF := fieldLoad(u); isF {
+				return false, fmt.Sprintf("it is the field %s, shared by every caller", f)
+			}
 		}
 		return false, fmt.Sprintf("%s is not a fresh allocation", v.String())
 	}
